@@ -11,7 +11,7 @@
      A4  stop_violation_*        what "no violation" means per constraint
 
    and proves the lemmas behind Props/C01 C02 C03 C04 C05 C07 C08 (named
-   C0x_..._proof).  No axioms. *)
+   C0x_..._proof).  Everything is closed under the global context. *)
 
 From Coq Require Import List ZArith Bool Arith Lia Permutation Sorted.
 From NR Require Import Model.Engine Proofs.Engine_lists Proofs.Engine_inv.
@@ -1523,3 +1523,183 @@ Proof.
   split; [exact Hall|]. split; [exact Hsum|]. rewrite <- Hsum. apply Hall.
   exact (proj1 (last_cell_props inp s v HI Hv)).
 Qed.
+
+(* ================================================================== *)
+(* Non-vacuity: the hypotheses hold on a non-trivial input             *)
+(* ================================================================== *)
+
+(* 3 stops, 2 resources, 2 vehicles with capacity, start level, start time,
+   end time, max duration, max distance and max wait; stop 0 has two windows
+   (after the epoch) and a max wait; units {0,1} and {2}; every constraint and
+   every objective term installed *)
+Definition ex2_opts : options :=
+  mkOptions false false false false false false false false false false false 1 1 1 1.
+Definition ex2_mat : list (list Z) :=
+  map (fun i => map (fun j => if Nat.eqb i j then 0 else 60) (seqn 7)) (seqn 7).
+Definition ex2_vehicle : ivehicle :=
+  mkIVehicle (Some [2; 3]) [0; 0] 3000 (Some 20000) (Some 15000) None (Some 1000) (Some 5000)
+             [] 10 true true.
+Definition ex2_inp : input :=
+  mkInput [mkIStop [-1; 0] 10 [(3600, 7200); (10800, 14400)] (Some 4000) 100 [];
+           mkIStop [0; -2] 10 [] None 100 [];
+           mkIStop [-1; -1] 10 [] None 100 []]
+          [ex2_vehicle; ex2_vehicle]
+          [mkIUnit [0; 1]%nat []; mkIUnit [2%nat] []]
+          ex2_mat ex2_mat 2 ex2_opts.
+Definition ex2_s0 : state :=
+  Eval vm_compute in match new_solution ex2_inp with Some s => s | None => ex_dummy end.
+Definition ex2_mv1 : move := mkMove 0 0 [(0, 1); (1, 1)]%nat.
+Definition ex2_mv2 : move := mkMove 1 0 [(2, 3)]%nat.
+Definition ex2_s1 : state := Eval vm_compute in fst (exec_move ex2_inp ex2_s0 ex2_mv1).
+Definition ex2_s2 : state := Eval vm_compute in fst (exec_move ex2_inp ex2_s1 ex2_mv2).
+Definition ex2_h : list op := [OpPlan ex2_mv1; OpPlan ex2_mv2; OpUnplan 0].
+
+Example ex2_wf : wf_input ex2_inp.
+Proof.
+  split; [|split].
+  - vm_compute. repeat (constructor; [simpl; lia|]). constructor.
+  - intros x. vm_compute. lia.
+  - intros u Hu. vm_compute in Hu. destruct Hu as [<-|[<-|[]]]; discriminate.
+Qed.
+
+Example ex2_new : new_solution ex2_inp = Some ex2_s0.
+Proof. vm_compute. reflexivity. Qed.
+
+Example ex2_move1_done : exec_move ex2_inp ex2_s0 ex2_mv1 = (ex2_s1, Done).
+Proof. vm_compute. reflexivity. Qed.
+
+Example ex2_move2_done : exec_move ex2_inp ex2_s1 ex2_mv2 = (ex2_s2, Done).
+Proof. vm_compute. reflexivity. Qed.
+
+Example ex2_move1_ok : move_ok ex2_inp ex2_s0 ex2_mv1.
+Proof.
+  unfold move_ok. vm_compute.
+  split; [lia|]. split; [lia|]. split; [apply Permutation_refl|]. split; [discriminate|].
+  split; repeat constructor.
+Qed.
+
+Example ex2_move2_ok : move_ok ex2_inp ex2_s1 ex2_mv2.
+Proof.
+  unfold move_ok. vm_compute.
+  split; [lia|]. split; [lia|]. split; [apply Permutation_refl|]. split; [discriminate|].
+  split; repeat constructor.
+Qed.
+
+Example ex2_fresh : fresh ex2_inp ex2_s0 ex2_h.
+Proof.
+  unfold ex2_h. cbn [fresh op_ok step]. rewrite ex2_move1_done. cbn [fst].
+  split; [exact ex2_move1_ok|]. split; [exact ex2_move2_ok|]. split; [vm_compute; lia|exact I].
+Qed.
+
+Example ex2_reachable_s2 : reachable ex2_inp ex2_s2.
+Proof.
+  exists ex2_s0, ex2_h. split; [exact ex2_new|]. split; [exact ex2_fresh|].
+  unfold ex2_h. cbn [run step]. rewrite ex2_move1_done. cbn [fst]. rewrite ex2_move2_done. cbn [fst].
+  right. right. left. reflexivity.
+Qed.
+
+Example ex2_windows_ok : input_windows_ok ex2_inp.
+Proof.
+  unfold input_windows_ok, ex2_inp. cbn [in_stops].
+  constructor; [|constructor; [exact windows_ok_nil|constructor; [exact windows_ok_nil|constructor]]].
+  cbn [is_windows]. split.
+  - constructor; [cbn; repeat split; lia|]. constructor; [cbn; repeat split; lia|constructor].
+  - constructor; [constructor; [constructor|constructor]|].
+    constructor; [cbn; lia|constructor].
+Qed.
+
+(* every constraint whose meaning is stated in C01 / C02 is installed *)
+Example ex2_constraints_installed :
+  has_capacity ex2_inp = true /\ has_distance_limit ex2_inp = true /\
+  has_latest_start ex2_inp = true /\ has_latest_end ex2_inp = true /\
+  has_max_wait_stop ex2_inp = true /\ has_max_wait_vehicle ex2_inp = true.
+Proof. vm_compute. repeat split. Qed.
+
+(* the planned route of vehicle 0 is first, 0, 1, 2, last; the vehicle waits at
+   stop 0 for its first window to open (arrival 3060, start 3600) *)
+Example ex2_route : route_stops (get_route ex2_s2 0) = [3; 0; 1; 2; 4]%nat.
+Proof. vm_compute. reflexivity. Qed.
+
+Example ex2_waits :
+  exists c, In c (tl (get_route ex2_s2 0)) /\ c_stop c = 0%nat /\
+            c_arrival c = 3060 /\ c_start c = 3600.
+Proof. eexists. split; [left; reflexivity|]. vm_compute. repeat split. Qed.
+
+(* the specification theorems instantiated on this run *)
+Example ex2_capacity_prefix :
+  forall k r, (1 <= k < 5)%nat -> (r < 2)%nat ->
+    0 <= start_level ex2_inp 0 r
+         - quantity_sum ex2_inp r (firstn k (tl (route_stops (get_route ex2_s2 0))))
+      <= capacity ex2_inp 0 r.
+Proof.
+  intros k r Hk Hr.
+  apply (C01_capacity_every_prefix_proof ex2_inp ex2_s2 0 k r ex2_wf ex2_reachable_s2).
+  - vm_compute. lia.
+  - exact Hk.
+  - vm_compute. reflexivity.
+  - exact Hr.
+Qed.
+
+(* the bound is attained: both resources are full after the third stop *)
+Example ex2_capacity_tight :
+  map (fun r => start_level ex2_inp 0 r
+                - quantity_sum ex2_inp r (firstn 3 (tl (route_stops (get_route ex2_s2 0)))))
+      [0; 1]%nat = [2; 3] /\
+  map (capacity ex2_inp 0) [0; 1]%nat = [2; 3].
+Proof. vm_compute. split; reflexivity. Qed.
+
+(* window lookup on concrete values: inside, in the gap, before, after *)
+Example ex2_lookup :
+  let ws := [(3600, 7200); (10800, 14400)] in
+  to_earliest_start ws 3660 = 3660 /\ to_earliest_start ws 7200 = 10800 /\
+  to_earliest_start ws 8000 = 10800 /\ to_earliest_start ws 100 = 3600 /\
+  to_earliest_start ws (-5) = 3600 /\ to_earliest_start ws 14400 = 14400 /\
+  to_earliest_start ws 20000 = 20000.
+Proof. vm_compute. repeat split. Qed.
+
+(* [reachable] unfolded, for readers of the Props files *)
+Lemma reachable_unfold_proof : forall inp s,
+  reachable inp s <->
+  exists s0 h, new_solution inp = Some s0 /\ fresh inp s0 h /\ In s (run inp s0 h).
+Proof. intros inp s. reflexivity. Qed.
+
+(* the third branch of toSlotInfo does fire for small minute indices (i + 1 <
+   number of windows) and then agrees with what the second branch returns one
+   iteration later when the guard is false *)
+Example third_branch_fires :
+  let ws := [(60, 120); (180, 240); (300, 360); (420, 480)] in
+  slot_scan 120 2 4 None ws = (false, 180) /\ slot_scan 120 2 3 None ws = (false, 180).
+Proof. vm_compute. split; reflexivity. Qed.
+
+(* C02 on the run: every cell of vehicle 0 whose stop has windows starts in a
+   window or at the last close (ex2_waits exhibits such a cell) *)
+Example ex2_start_in_window_applies : forall c,
+  In c (tl (get_route ex2_s2 0)) -> stop_windows ex2_inp (c_stop c) <> [] ->
+  in_some_window (stop_windows ex2_inp (c_stop c)) (c_start c) \/
+  c_start c = last_max (stop_windows ex2_inp (c_stop c)).
+Proof.
+  intros c Hin Hne.
+  assert (Hv : (0 < nveh ex2_inp)%nat) by (vm_compute; lia).
+  exact (proj2 (C02_start_in_window_proof ex2_inp ex2_s2 0 c ex2_wf ex2_reachable_s2
+                  ex2_windows_ok Hv Hin Hne)).
+Qed.
+
+Example ex2_shift_end_applies : c_end (last_cell (get_route ex2_s2 0)) <= 3000 + 15000.
+Proof.
+  assert (Hv : (0 < nveh ex2_inp)%nat) by (vm_compute; lia).
+  destruct (C02_shift_end_proof ex2_inp ex2_s2 0 ex2_wf ex2_reachable_s2 Hv) as (_ & _ & H).
+  exact (H eq_refl 15000 eq_refl).
+Qed.
+
+(* ================================================================== *)
+(* Assumptions                                                         *)
+(* ================================================================== *)
+
+Print Assumptions next_cell_fields.
+Print Assumptions to_earliest_start_spec.
+Print Assumptions to_earliest_start_spec0.
+Print Assumptions slot_scan_third_branch_harmless.
+Print Assumptions from_scratch_nth.
+Print Assumptions stop_violation_none.
+Print Assumptions ex2_capacity_prefix.
+Print Assumptions third_branch_fires.
